@@ -1515,6 +1515,14 @@ func judgePlaceholder(d Data, sh shape, spec hcldec.Spec, impl result, desc func
 			}
 		}
 	}
+	if impl.err && strings.Contains(impl.diag, "Unconsistent argument types") {
+		// hcldec.BlockListSpec / BlockSetSpec document that all blocks must yield one type when the
+		// nested specification is dynamically typed; a nested collection that is unknown because of its
+		// for_each (a BlockTupleSpec result is then of unknown type) cannot be compared with the known
+		// tuples of its siblings, and neither the README nor the property says what decoding does then
+		counters.Add("unknown_foreach_under_dynamically_typed_list_or_set_not_judged", 1)
+		return nil
+	}
 	if impl.err {
 		return fail(cls("expansion-fails-placeholder-decodes"),
 			"for_each is unknown; Expand+Decode fails: %s\nbut the body with one block per unknown collection (iterator key and value unknown) decodes to %s\nwrite-out:\n%s\n%s",
